@@ -1008,6 +1008,10 @@ def finish(run, prop, tier, acc, wall):
            "exhaustive": False,
            "e1_tlc_model_checking": acc.e1, "e2_product_spec_to_code": acc.e2, "e3_trace_validation_code_to_spec": acc.e3,
            "other_lenses_that_rejected_something": others, "known_findings_seen": sorted(seen_keys)}
+    cov["how_the_counts_are_formed"] = ("states = distinct states TLC found in this run's E1 models + product states (spec state, implementation snapshot) reached by E2 "
+                                        "(+ scenarios / vectors / images executed, where a plan has them); transitions = states TLC generated in E1 + transitions (or "
+                                        "vectors, loads, replayed events) executed on the real code; traces_validated_against_impl = recorded executions of the real code "
+                                        "judged by Trace.tla in this run (E3 traces + E2 witness paths; observation records for Hex/Label); all measured in this run")
     cov.update(acc.notes)
     if not acc.e1 and not acc.e2 and not acc.e3:
         for k in ("e1_tlc_model_checking", "e2_product_spec_to_code", "e3_trace_validation_code_to_spec"):
